@@ -677,4 +677,4 @@ mod tests {
 // Verification hook (inert unless built by `cargo kani`): harnesses for the private items of this module.
 #[cfg(kani)]
 #[path = "/verif/kani/incrate/h_spectrum.rs"]
-mod verif_kani;
+pub(crate) mod verif_kani;
